@@ -25,6 +25,7 @@ RULE = RULE + " Rounds e-f: zero-length grace notes, a read of the absolute view
 RULE = RULE + " Round h: an INTERNAL end marker added through add_absolute_message after the relative view was read."
 RULE = RULE + " Round i: stray time attributes on hand-written relative note messages."
 RULE = RULE + " Round j: settings reloaded at run time with another ppqn."
+RULE = RULE + " Round k: conflicting then matching signature on one tick."
 ASSUMPTIONS = ["a duplicate identical signature may be accepted or rejected (normalise may merge it)"]
 TIERS = {"quick": dict(shards=8, examples=1200), "thorough": dict(fuzz_runs=20000, fuzz_shards=4, shards=16, examples=15000)}
 
@@ -53,7 +54,7 @@ def _case(draw):
                                        max_len=max(1, min(target, 60)), max_gap=max(1, min(target, 40)), start_max=min(target, 30)))
     notes = [n for n in notes if n[3] <= target]
     sigs = draw(st.sampled_from(["none", "none", "match", "match-mid", "conflict", "conflict-mid", "two-different",
-                                 "match+conflict", "duplicate"]))
+                                 "match+conflict", "duplicate", "conflict-then-match-same-tick"]))
     other = draw(st.one_of(st.tuples(st.integers(1, 16), st.sampled_from([2, 4, 8, 16])), st.just((2 * num, 2 * den)),
                            st.just((num, 2 * den))).filter(lambda v: v != (num, den)))
     mid = draw(st.integers(0, max(0, target)))
@@ -72,6 +73,8 @@ def _case(draw):
         meta = [["ts", mid, other[0], other[1]], ["ts", mid2, third[0], third[1]]]
     elif sigs == "match+conflict" and mid2 is not None:
         meta = [["ts", mid, num, den], ["ts", mid2, other[0], other[1]]]
+    elif sigs == "conflict-then-match-same-tick":
+        meta = [["ts", mid, other[0], other[1]], ["ts", mid, num, den]]
     elif sigs == "duplicate" and mid2 is not None:
         meta = [["ts", mid, num, den], ["ts", mid2, num, den]]
     if draw(st.booleans()):
